@@ -83,7 +83,23 @@ def scenario(rng):
             steps.append({"op": "call", "i": 1, "api": rng.choice(["send", "event"]),
                           "ev": rng.choice(d["evlist"]), "gv": gen.rand_gv(rng)})
     scn["steps"] = steps
+    cb_writes(rng, scn, ids)
     return scn
+
+
+def cb_writes(rng, scn, ids, p=0.4):
+    """Some callbacks write the model field themselves, in the middle of the transition (valid values mostly)."""
+    if rng.random() >= p:
+        return
+    d = scn["classes"][0]
+    script = scn.setdefault("script", {})
+    cands = [c for c, cb in enumerate(d["cbs"], start=1) if cb["group"] not in ("cond", "validators") and not cb.get("evcb")]
+    for c in rng.sample(cands, min(len(cands), rng.randint(1, 3))):
+        w = {"write": rng.choice(ids + ids + ids + ["!bad1", "!bad2"])}
+        script[str(c)] = [w] + list(script.get(str(c), []))
+    scn["cb_writes"] = True
+    scn["budget"] = max(1, scn.get("budget", 0))
+    scn["steps"][0]["opt"]["budget"] = max(1, scn["steps"][0]["opt"].get("budget", 0))
 
 
 def featurize(scn, res, v):
@@ -98,7 +114,7 @@ def featurize(scn, res, v):
             val = s["value"]["v"]
             falsy_start = val in (0, "", []) or val == []
     p = (nxt.get("proj") or [{}])[0]
-    return {"model_kind": new.get("model_kind"), "scheme": scn.get("value_scheme"),
+    return {"model_kind": new.get("model_kind"), "scheme": scn.get("value_scheme"), "cb_writes": bool(scn.get("cb_writes")),
             "falsy_start_value": falsy_start, "modelok": p.get("modelok"), "first_call": k <= 2}
 
 
@@ -126,6 +142,8 @@ def run(pid, tier, seed, replay):
     def valued(scn):
         scn["value_scheme"] = gen.assign_values(rng, scn["classes"][0])
         scn["steps"][0]["model_kind"] = rng.choice(MODEL_KINDS)
+        scn["values"] = {"!bad1": {"t": "int", "v": 999}, "!bad2": {"t": "str", "v": "no_such_state"}}
+        cb_writes(rng, scn, [s["id"] for s in scn["classes"][0]["states"]], p=0.5)
     ec.nonrtc_leg(chk, rng, 250 if quick else 4000, shards=2 if quick else 8, events=EVS, tweak=valued, featurize=featurize)
     chk.coverage["rule"] = ("value schemes id/int incl 0/negative int/empty string/enum/tuple/mixed x model shapes default/attribute/"
                             "property/class attribute/falsy(__len__)/falsy(__bool__) x state_field names x stored value x start_value; "
